@@ -258,6 +258,27 @@ pub fn replay(a: &Args) -> Report {
           next.push(s2.as_ref().expect("second server").clone());
           touched = next.len() - 1;
         }
+        "S" => {
+          // instance t installs the state exported by instance i
+          let (i, j) = (sc.i - 1, sc.t as usize - 1);
+          if i == j {
+            continue;
+          }
+          let bytes = export_bytes(&next[i]);
+          match bincode::deserialize::<ppoprf::ppoprf::ServerKeyState>(&bytes) {
+            Ok(st) => {
+              if guard(|| next[j].set_private_key(st)).is_panic() {
+                rep.violation("C14", "Server::set_private_key", "sync-panicked", "set_private_key panicked".into(), json!({"history": hj2}));
+                continue;
+              }
+            }
+            Err(_) => {
+              rep.violation("C14", "Server::get_private_key", "export-not-decodable", "exported key state does not deserialise".into(), json!({"history": hj2}));
+              continue;
+            }
+          }
+          touched = j;
+        }
         _ => continue,
       }
       let nrec = match tbl.get(&sc.next) {
@@ -344,12 +365,20 @@ pub fn record(a: &Args) -> Report {
           rep.violation("C14", "Server::set_private_key", "import-failed",
             "exported key state could not be imported".into(), json!({"run": run, "step": step}));
         }
-      } else if choice < 36 && !have_other && servers.len() < max_inst {
+      } else if choice < 38 && choice >= 33 && servers.len() >= 2 {
+        let j = (i + 1 + rng.gen_range(0..servers.len() - 1)) % servers.len();
+        let bytes = export_bytes(&servers[i]);
+        if let Ok(st) = bincode::deserialize::<ppoprf::ppoprf::ServerKeyState>(&bytes) {
+          let _ = guard(|| servers[j].set_private_key(st));
+          keyid[j] = keyid[i];
+          writeln!(f, "{}", json!({"ev":"Sync","i":i+1,"j":j+1})).unwrap();
+        }
+      } else if choice < 41 && !have_other && servers.len() < max_inst {
         servers.push(Server::new(regs[1].clone()).unwrap());
         keyid.push(run * 10 + 2);
         have_other = true;
         writeln!(f, "{}", json!({"ev":"New","k":run*10+2,"reg":regs[1]})).unwrap();
-      } else if choice < 42 {
+      } else if choice < 46 {
         let pk = servers[i].get_public_key().serialize_to_bincode().unwrap_or_default();
         writeln!(f, "{}", json!({"ev":"Pk","i":i+1,"pid":intern(&pk)})).unwrap();
       } else {
